@@ -118,7 +118,12 @@ class Guard:
         self.kind, self.name, self.res, self.mode, self.depth, self.line = kind, name, res, mode, depth, line
 
 
-def analyse(path, rel, classify, acq_table, closure_cells=False, skip_fn=lambda n: False):
+DASH_GUARD = {"get_mut": "excl", "get": "shared", "iter": "shared", "iter_mut": "excl", "entry": "excl", "try_get_mut": "excl", "try_get": "shared"}
+DASH_MOMENT = {"insert": "excl", "remove": "excl", "remove_if": "excl", "len": "shared", "contains_key": "shared", "clear": "excl",
+               "retain": "excl", "is_empty": "shared", "alter": "excl"}
+
+
+def analyse(path, rel, classify, acq_table, closure_cells=False, skip_fn=lambda n: False, dash_recv=()):
     """returns (sites, calls, problems):
        sites  = [(fn, line, res, mode, [(res, mode) live])]
        calls  = [(fn, line, callee, [(res, mode) live])]"""
@@ -138,7 +143,7 @@ def analyse(path, rel, classify, acq_table, closure_cells=False, skip_fn=lambda 
         return fn_stack[-1][0] if fn_stack else None
 
     def live():
-        return [(g.res, g.mode) for g in guards]
+        return [(g.res, g.mode) for g in guards if not getattr(g, "suspended", None)]
 
     while i < n:
         t, line = toks[i]
@@ -160,6 +165,9 @@ def analyse(path, rel, classify, acq_table, closure_cells=False, skip_fn=lambda 
             new_stmt[depth] = True
         elif t == "}":
             guards = [g for g in guards if g.depth < depth]
+            for g in guards:
+                if getattr(g, "suspended", None) == depth:
+                    g.suspended = None
             if fn_stack and fn_stack[-1][1] == depth:
                 fn_stack.pop()
                 guards = []
@@ -174,7 +182,16 @@ def analyse(path, rel, classify, acq_table, closure_cells=False, skip_fn=lambda 
                 new_stmt[depth] = True
         elif t == "drop" and i + 3 < n and toks[i + 1][0] == "(" and toks[i + 3][0] == ")":
             nm = toks[i + 2][0]
-            guards = [g for g in guards if g.name != nm]
+            kept = []
+            for g in guards:
+                if g.name != nm:
+                    kept.append(g)
+                elif g.res == "D2" and depth > g.depth + (1 if g.kind == "temp" else 0):
+                    # dropped inside a NESTED block (a branch that usually returns): on the path that skips the branch the
+                    # guard is still alive — suspended until that block closes (conservative for branches that fall through)
+                    g.suspended = depth
+                    kept.append(g)
+            guards = kept
         # closure parameter bound to a thread-local cell: `self.cache.with(|c| …`
         if closure_cells and t == "with" and i >= 2 and toks[i - 1][0] == "." and i + 4 < n and toks[i + 1][0] == "(" and toks[i + 2][0] == "|":
             cell = toks[i - 2][0]
@@ -210,6 +227,52 @@ def analyse(path, rel, classify, acq_table, closure_cells=False, skip_fn=lambda 
                     name = toks[k + 1][0] if toks[k + 1][0] != "mut" else toks[k + 2][0]
                     bound = True
                 guards.append(Guard("bound" if bound else "temp", name, res, mode, depth, line))
+        # a suspension point: nothing may be held across it (a DashMap guard alive here blocks every other user of that shard
+        # for as long as the future stays suspended)
+        if dash_recv and t == "await" and i >= 1 and toks[i - 1][0] == "." and cur_fn() is not None and not skip_fn(cur_fn()):
+            sites.append((cur_fn(), line, "AWAIT", "excl", live()))
+        # DashMap operations on the async store (`self.cache.get_mut(k)`, `#cache_ident.iter()` …): the returned Ref / RefMut / iterator
+        # holds a SHARD lock for as long as it lives (bound by `let`, by an `if let` / `while let` / `for` / `match` head: through that
+        # statement; otherwise to the end of the statement); insert / remove / len … take shard locks momentarily
+        if dash_recv and (t in DASH_GUARD or t in DASH_MOMENT) and i >= 2 and toks[i - 1][0] == "." and i + 1 < n and toks[i + 1][0] == "(" \
+                and cur_fn() is not None and not skip_fn(cur_fn()):
+            j = i - 2
+            recv = []
+            while j >= 0 and re.match(r"#?[A-Za-z_]\w*$", toks[j][0]) and toks[j][0] not in ("mut", "let", "return", "in", "if", "match"):
+                recv.append(toks[j][0])
+                if j >= 1 and toks[j - 1][0] in (".", "::"):
+                    recv.append(toks[j - 1][0]); j -= 2
+                else:
+                    break
+            recv = "".join(reversed(recv))
+            if recv in dash_recv:
+                mode = DASH_GUARD.get(t) or DASH_MOMENT[t]
+                sites.append((cur_fn(), line, "D2", mode, live()))
+                if t in DASH_GUARD:
+                    first = stmt_first.get(depth)
+                    # the name the guard is bound to: `let [mut] NAME = …` / `if let Some([mut] NAME) = …` / `for NAME in …`
+                    k = i
+                    while k >= 0 and toks[k][0] not in ("let", "for", ";", "{", "}"):
+                        k -= 1
+                    name = None
+                    if k >= 0 and toks[k][0] in ("let", "for"):
+                        kk = k + 1
+                        while kk < i and toks[kk][0] in ("mut", "Some", "Ok", "(", "ref", "&"):
+                            kk += 1
+                        if re.match(r"[A-Za-z_]\w*$", toks[kk][0]):
+                            name = toks[kk][0]
+                    # bound only if the DashMap call is the whole right-hand side (`let g = map.get_mut(k);`)
+                    dd, kk2 = 0, i + 1
+                    while kk2 < n:
+                        if toks[kk2][0] == "(":
+                            dd += 1
+                        elif toks[kk2][0] == ")":
+                            dd -= 1
+                            if dd == 0:
+                                break
+                        kk2 += 1
+                    bound = first == "let" and kk2 + 1 < n and toks[kk2 + 1][0] == ";"
+                    guards.append(Guard("bound" if bound else "temp", name, "D2", mode, depth, line))
         # call of a function of the same crate: `self.NAME(` or `NAME(` or `Self::NAME(`; callbacks: `callback(`
         if re.match(r"[A-Za-z_]\w*$", t) and i + 1 < n and toks[i + 1][0] == "(" and cur_fn() is not None and not skip_fn(cur_fn()) \
                 and (i == 0 or toks[i - 1][0] != "fn") and t not in acq_table:
@@ -249,7 +312,8 @@ def lock_nesting():
         if not os.path.exists(p):
             problems.append(f"{rel}: file is gone")
             continue
-        sites, calls, pr = analyse(p, rel, classify_lock, LOCK_ACQ, skip_fn=skip)
+        sites, calls, pr = analyse(p, rel, classify_lock, LOCK_ACQ, skip_fn=skip,
+                                   dash_recv=(("self.cache", "#cache_ident") if "async" in rel else ()))
         problems += pr
         for s in sites:
             all_sites.append((rel,) + s)
@@ -273,12 +337,18 @@ def lock_nesting():
                     trans.setdefault(k, set()).update(add)
                     changed = True
     # what the registered callbacks acquire: every acquisition of the macro crates' generated code
-    cb_sync = set((r, m) for (rel, fn, line, r, m, live) in all_sites if rel.startswith("cachelito-macros"))
-    cb_async = set((r, m) for (rel, fn, line, r, m, live) in all_sites if rel.startswith("cachelito-async-macros"))
+    cb_sync = set((r, m) for (rel, fn, line, r, m, live) in all_sites if rel.startswith("cachelito-macros") and r not in ("D2", "AWAIT"))
+    cb_async = set((r, m) for (rel, fn, line, r, m, live) in all_sites if rel.startswith("cachelito-async-macros") and r not in ("D2", "AWAIT"))
     edges = set()
     where = {}
+    shard_held = []         # DashMap shard guards alive at an acquisition (of a lock, or of the DashMap itself)
     for rel, fn, line, res, mode, live in all_sites:
         for (hr, hm) in live:
+            if hr == "D2":
+                shard_held.append(f"{rel}:{line} ({fn}): a DashMap guard is alive at " + ("an `.await`" if res == "AWAIT" else f"the acquisition of {res}"))
+                continue
+            if res in ("D2", "AWAIT"):
+                continue        # a DashMap operation under a lock: the order queue -> store nesting, an atomic step of the model
             e = (hr, hm, res, mode)
             edges.add(e); where.setdefault(e, f"{rel}:{line}")
     for rel, fn, line, callee, live, selfish in all_calls:
@@ -291,10 +361,20 @@ def lock_nesting():
             inner = cb_sync | cb_async
             # nestings INSIDE the callbacks are already in `edges`; here: registry guard -> everything a callback takes
         for (hr, hm) in live:
+            if hr == "D2":
+                if inner:
+                    shard_held.append(f"{rel}:{line} ({fn}): a DashMap guard is alive at the call of `{callee}`, which acquires {sorted(set(r for r, _ in inner))}")
+                continue
             for (r, m) in inner:
+                if r == "D2":
+                    continue
                 e = (hr, hm, r, m)
                 edges.add(e); where.setdefault(e, f"{rel}:{line} (via {callee})")
-    return sorted(edges), where, len(all_sites), problems
+    SHARD_HELD.clear(); SHARD_HELD.extend(sorted(set(shard_held)))
+    return sorted(edges), where, len([x for x in all_sites if x[3] not in ("D2", "AWAIT")]), problems
+
+
+SHARD_HELD = []
 
 
 LEAN_LOCK = {"STATS": "STATS", "Rt": "Rt", "Re": "Re", "Rd": "Rd", "Rm": "Rm", "Rc": "Rc", "Rk": "Rk",
@@ -319,6 +399,9 @@ def write_lock_file(edges, where, nsites, problems):
          "",
          f"/-- constructs the translator could not classify (must be empty) -/",
          "def lockProblems : List String := [" + ", ".join(json.dumps(p) for p in problems) + "]",
+         "/-- DashMap shard guards (`get` / `get_mut` / `iter` … on the async store) that are still alive where the code acquires a lock, touches",
+         "    the DashMap again, or calls a function that does: must be empty (the model treats DashMap operations as atomic steps) -/",
+         "def shardHeld : List String := [" + ", ".join(json.dumps(p) for p in SHARD_HELD) + "]",
          "",
          "def nesting : List (Lock × Mode × Lock × Mode) := ["]
     rows = []
